@@ -638,7 +638,11 @@ class Walker:
             return [(s, "raise", Exc(st.env[e.id][1], [self.site(n)], (), "explicit", "re-raise of caught exception"))]
         exc = self.exc_class_name(cls_node, st)
         cur, bad = self.seq(args + [k.value for k in (e.keywords if isinstance(e, ast.Call) else [])], st)
-        outs.extend(bad)
+        for s_b, k_b, p_b in bad:
+            if k_b == "raise":
+                # an error while building the exception object replaces the intended one
+                p_b = Exc(p_b.exc, p_b.chain, p_b.conds, "raise-args:" + exc, p_b.why + " (while building the %s raised at %s)" % (exc, self.site(n).loc()))
+            outs.append((s_b, k_b, p_b))
         for s, ts in cur:
             s = s.copy()
             s.ev("raise", self.site(n), exc, "explicit", tuple(ts))
@@ -889,9 +893,27 @@ class Walker:
         for s, k, p in self.block(n.body, st):
             if k == "raise":
                 handled = False
+                vague = p.origin in ("dynamic", "unknown-callable", "opaque")
                 for h in n.handlers:
                     names = self.handler_classes(h, s)
-                    if any(self.prog.exc_is_sub(p.exc, nm) for nm in names):
+                    certain = any(self.prog.exc_is_sub(p.exc, nm) for nm in names)
+                    # an exception from code the analysis does not see ("may raise anything") may be
+                    # any subclass: a narrower handler possibly catches it, and it possibly escapes
+                    possible = vague and any(self.prog.exc_is_sub(nm, p.exc) for nm in names)
+                    if possible and not certain:
+                        hs = s.copy()
+                        narrowed = Exc([nm for nm in names if self.prog.exc_is_sub(nm, p.exc)][0], p.chain, p.conds, p.origin, p.why)
+                        hs.env["$exc"] = narrowed
+                        if h.name:
+                            hs.env[h.name] = ("excobj", narrowed.exc)
+                        hs.ev("caught", self.site(h), narrowed.exc, tuple(names), p.site(), p.conds, p.chain)
+                        for s2, k2, p2 in self.block(h.body, hs):
+                            s2.env.pop("$exc", None)
+                            if h.name:
+                                s2.env.pop(h.name, None)
+                            outs.append((s2, k2, p2))
+                        continue
+                    if certain:
                         hs = s.copy()
                         hs.env["$exc"] = p
                         if h.name:
@@ -999,7 +1021,25 @@ class Walker:
     def e_Name(self, e, st):
         if e.id in st.env and "$global:" + e.id not in st.env:
             return [(st, "val", st.env[e.id])]
+        if "$global:" + e.id not in st.env and e.id in self._local_names():
+            # a local variable that is not bound on this path (assigned later / on another branch)
+            outs = []
+            self.rz(outs, st, e, "UnboundLocalError", "local variable '%s' may be read before assignment" % e.id, [])
+            return outs
         return [(st, "val", self.global_term(e.id, e))]
+
+    def _local_names(self):
+        ln = getattr(self, "_locals", None)
+        if ln is None:
+            node = self.fi.node
+            ln = set()
+            for x in ast.walk(node):
+                if isinstance(x, (ast.FunctionDef, ast.AsyncFunctionDef, ast.Lambda)) and x is not node:
+                    continue
+                if isinstance(x, ast.Name) and isinstance(x.ctx, (ast.Store, ast.Del)):
+                    ln.add(x.id)
+            self._locals = ln
+        return ln
 
     def global_term(self, name, node):
         fi = self.fi.parent
@@ -1140,9 +1180,34 @@ class Walker:
                 else:
                     conv = {97: "builtin:ascii", 114: "builtin:repr", 115: "builtin:str", -1: "builtin:format"}[v.conversion]
                     parts.append(CallT(conv, [ts[i]]))
+                    if v.format_spec is not None and v.conversion == -1:
+                        self._format_spec(outs, s, v, ts[i])
                     i += 1
             outs.append((s, "val", ("fstr", tuple(parts))))
         return outs
+
+    def _format_spec(self, outs, s, v, t):
+        """format(value, spec): ValueError/TypeError unless the value's type fits the presentation type"""
+        spec = v.format_spec
+        text = None
+        if isinstance(spec, ast.JoinedStr) and all(isinstance(x, ast.Constant) for x in spec.values):
+            text = "".join(str(x.value) for x in spec.values)
+        ts = s.types(t)
+        if text is None or not text:
+            if text is None:
+                self.rz(outs, s, v, "ValueError", "format() with a computed format specification", [])
+            return
+        kind = text[-1]
+        if kind in "dxXobcn":
+            need = frozenset(["int", "bool"])
+        elif kind in "eEfFgG%":
+            need = frozenset(["int", "float", "bool"])
+        elif kind == "s":
+            need = frozenset(["str"])
+        else:
+            need = frozenset(["int", "float", "bool", "str"])
+        if ts is None or not ts <= need:
+            self.rz(outs, s, v, "ValueError", "format specification '%s' applied to a value that may not be %s" % (text, "/".join(sorted(need))), [("nottype", t, need)])
 
     def e_FormattedValue(self, e, st):
         return self.expr(e.value, st)
